@@ -58,6 +58,9 @@ type caseT struct {
 	tag           string
 }
 
+// gcmHeld: results of earlier GCM calls of this worker process (see pu.Held)
+var gcmHeld pu.Held
+
 func checkCase(c *harness.Ctx, cs caseT, flips bool) {
 	c.Add("evaluations", 1)
 	c.DistinctS("nontrivial", cs.tag)
@@ -73,6 +76,12 @@ func checkCase(c *harness.Ctx, cs caseT, flips bool) {
 		return
 	}
 	cls := fmt.Sprintf("iv%d:A%s:P%s", len(cs.iv), lenClass(len(cs.a)), lenClass(len(cs.p)))
+	gcmHeld.Keep("ciphertext of "+cs.tag, C)
+	gcmHeld.Keep("tag of "+cs.tag, T)
+	if n := gcmHeld.Changed(); n != "" {
+		c.Violate("earlier-result-changed", fmt.Sprintf("[%s] after this call an earlier result no longer holds what it held: %s", cs.tag, n), nil, nil)
+		gcmHeld = pu.Held{}
+	}
 	if !bytes.Equal(C, wantC) {
 		c.Violate("ciphertext:"+cls, fmt.Sprintf("[%s] ciphertext %s differs from GCM over SM4 %s", cs.tag, pu.Hex(C), pu.Hex(wantC)), nil, nil)
 	}
@@ -91,6 +100,7 @@ func checkCase(c *harness.Ctx, cs caseT, flips bool) {
 	if c.Guard("panic-decrypt:"+cls, "Sm4GCM(decrypt) ["+cs.tag+"]", nil, func() { P, T2, err = sm4.Sm4GCM(cs.key, ic2.Slice(), cc.Slice(), cs.a, false) }) {
 		return
 	}
+	gcmHeld.Keep("plaintext of "+cs.tag, P)
 	if err != nil || !bytes.Equal(P, cs.p) {
 		c.Violate("decrypt-plaintext:"+cls, fmt.Sprintf("[%s] decryption returned %s (err %v), want %s", cs.tag, pu.Hex(P), err, pu.Hex(cs.p)), nil, nil)
 	}
